@@ -1530,7 +1530,7 @@ pub fn run(ctx: &mut Ctx, eng: &mut dyn Engine) {
          and alphabet 1 endpoint x source/no-source x TSI 1,2 (12 ops) to depth {}; after each sequence all 8 (endpoint, source?, tsi) data packets \
          are pushed through a real MultiReceiver with filtering on, bit = session opened, compared with the Lean model and with independent saturating counters; \
          (b) {} cases of 2-4 real Sender sessions (equal TSIs on distinct endpoints, distinct TSIs on one endpoint, distinct sources) interleaved by seeded schedules \
-         with close-session packets, cleanup, filter ops, listeners added/removed mid-way, and genuine packets edited in RFC-legal ways (Close Session flag on data / FDT / last packets, Close Object flag, rewritten CCI; callbacks and events must equal a reference run in which a close-flagged packet = the unedited packet + a bare close packet): per op the listener events vs model, per session callbacks (per TOI) and events vs a solo run, callbacks carry the packet's key; \
+         with close-session packets, cleanup, filter ops, listeners added/removed mid-way, and genuine packets edited in RFC-legal ways (Close Session flag on data / FDT / last packets, Close Object flag, rewritten CCI; callbacks and events must equal a reference run in which a close-flagged packet = the unedited packet + a bare close packet): per op the listener events AND the (endpoint, tsi) carried by every writer callback of the call (incl. the callbacks made when a receiver is destroyed at close / expiry / drop) vs model (the implementation reports the number of callbacks per session as an annotation of the op line, the model answers which key each carries), per session callbacks (per TOI) and events vs a solo run and vs a reference run that processes exactly the packets the independent reference counters accept (cases with ticks included: one replay pass, one sleep per tick); \
          (c) {} cases with out-of-order/duplicate packets and {} cases with session expiry (time-out {} ms, tick = {} ms sleep), drop at the end; \
          (d) {} runs of {} sessions expiring while cleanup runs continuously; non-trivial = sequences with an add, a remove and an accepted probe / every session case",
         d_full, d_one, n_iso, n_lis, n_exp, T_MS, TICK_MS, n_race, race_n
